@@ -3,15 +3,12 @@
 //!   conform run <engine> <cases.ndjson> <obs.ndjson>
 //!   conform child <engine> <cases.ndjson> <obs.ndjson>   (one case per process, wall-clock limit)
 //!   conform one <engine>                                  (stdin: one case, stdout: observations)
+#[path = "../../harness/src/util.rs"]
 mod util;
+#[path = "../../harness/src/srv.rs"]
 mod srv;
-mod e_subs;
-mod e_revise;
-mod e_filter;
-mod e_aspace;
-mod e_nodemgmt;
-mod e_handshake;
-mod e_renew;
+mod e_browse;
+mod e_attr;
 
 use serde_json::Value;
 use std::io::{BufRead, BufReader, BufWriter, Write};
@@ -41,13 +38,8 @@ impl Obs {
 
 fn run_case(engine: &str, case: &Value, out: &mut Obs) {
     match engine {
-        "subs" => e_subs::run_case(case, out),
-        "revise" => e_revise::run_case(case, out),
-        "filter" => e_filter::run_case(case, out),
-        "aspace" => e_aspace::run_case(case, out),
-        "nodemgmt" => e_nodemgmt::run_case(case, out),
-        "handshake" => e_handshake::run_case(case, out),
-        "renew" => e_renew::run_case(case, out),
+        "browse" => e_browse::run_case(case, out),
+        "attr" => e_attr::run_case(case, out),
         _ => {
             eprintln!("unknown engine {}", engine);
             std::process::exit(2);
